@@ -115,7 +115,7 @@ func (c *Controller) VerifCanonicalOrder() {
 	}
 	if len(r.readers) == len(r.readerIndex) {
 		type pr struct {
-			a string
+			a  string
 			rd io.ReaderAt
 		}
 		var l []pr
